@@ -75,6 +75,15 @@ std::string describe_addr(const void *p);
 // address relation probe for evidence: does `a` (new block) equal an address that an earlier block had?
 bool addr_was_reused(const void *p);
 
+// Guard on librx.so's writable globals during a concurrent phase (plain variant): the .data/.bss pages are made
+// read-only; a write faults, is recorded if it comes from JIT-emitted or hand-written assembly code (which TSan cannot
+// see and which cannot synchronise), the page is opened and the instruction restarts; pages are re-armed at every
+// context switch. Two different tasks writing the same global from such code is a race.
+void globals_guard_arm();
+void globals_guard_rearm();
+struct GlobalWriteRace { uintptr_t lib_offset; int tasks; int pc_class; };
+std::vector<GlobalWriteRace> globals_guard_disarm(uint64_t *writes_seen);
+
 // /proc/self/maps audit: kernel view of every tracked block must equal the model; returns number of
 // mismatches (each recorded as an anomaly) -- plain variant only.
 int maps_audit(int op_index);
